@@ -292,17 +292,17 @@ package stree
 //@   ensures  [C01] input: unchanged(elems(keys))
 //@   call extract#1: cmp = compare
 //@   loop 1: invariant [C01] made: 0 <= it1 && len(nodes) == len(keys) && fresh(nodes) && unchanged(elems(keys)) && tree != nil && fresh(tree) && tree.root == nil && tree.compare == compare && tree.size == 0 && tree.max == 0
-//@   loop 1: invariant [C01] nodes: forall k int :: {nodes[k]} 0 <= k && k < it1 ==> nodes[k] != nil && !old(allocated(nodes[k])) && allocated(nodes[k]) && nodes[k].X == keys[k]
+//@   loop 1: invariant [C01] nodes: forall k int :: {nodes[k]} 0 <= k && k < it1 ==> nodes[k] != nil && fresh(nodes[k]) && nodes[k].X == keys[k]
 //@   loop 1: invariant [C01] apart: forall a int, b int :: {nodes[a], nodes[b]} 0 <= a && a < b && b < it1 ==> nodes[a] != nodes[b]
 //@   at loop 1 exit: ghost n0 = snap(nodes)
 //@   at after "slices.SortFunc(nodes, func(a, b *node[T]) int { return compare(a.X, b.X) })": ghost sp = SortFunc_p
 //@   at after "slices.SortFunc(nodes, func(a, b *node[T]) int { return compare(a.X, b.X) })": ghost sq = SortFunc_q
 //@   at after "slices.SortFunc(nodes, func(a, b *node[T]) int { return compare(a.X, b.X) })": ghost n1 = snap(nodes)
-//@   at after "slices.SortFunc(nodes, func(a, b *node[T]) int { return compare(a.X, b.X) })": assert [C01] forall k int :: {nodes[k]} 0 <= k && k < len(nodes) ==> 0 <= sp[k] && sp[k] < len(nodes) && nodes[k] == n0[addr(nodes, sp[k])] && nodes[k] != nil && allocated(nodes[k]) && !old(allocated(nodes[k])) && nodes[k].X == keys[sp[k]] && sq[sp[k]] == k
+//@   at after "slices.SortFunc(nodes, func(a, b *node[T]) int { return compare(a.X, b.X) })": assert [C01] forall k int :: {nodes[k]} 0 <= k && k < len(nodes) ==> 0 <= sp[k] && sp[k] < len(nodes) && nodes[k] == n0[addr(nodes, sp[k])] && nodes[k] != nil && fresh(nodes[k]) && nodes[k].X == keys[sp[k]] && sq[sp[k]] == k
 //@   at after "slices.SortFunc(nodes, func(a, b *node[T]) int { return compare(a.X, b.X) })": assert [C01] forall a int, b int :: {nodes[a], nodes[b]} 0 <= a && a < b && b < len(nodes) ==> nodes[a] != nodes[b] && rank(compare, nodes[a].X) <= rank(compare, nodes[b].X)
 //@   at after "tree.max = len(nodes)": ghost cs = CompactFunc_src
 //@   at after "tree.max = len(nodes)": ghost ck = CompactFunc_keep
-//@   at after "tree.max = len(nodes)": assert [C01] forall i int :: {nodes[i]} 0 <= i && i < len(nodes) ==> 0 <= cs[i] && cs[i] < len(keys) && nodes[i] == n1[addr(nodes, cs[i])] && nodes[i] != nil && allocated(nodes[i]) && !old(allocated(nodes[i])) && nodes[i].X == keys[sp[cs[i]]]
+//@   at after "tree.max = len(nodes)": assert [C01] forall i int :: {nodes[i]} 0 <= i && i < len(nodes) ==> 0 <= cs[i] && cs[i] < len(keys) && nodes[i] == n1[addr(nodes, cs[i])] && nodes[i] != nil && fresh(nodes[i]) && nodes[i].X == keys[sp[cs[i]]]
 //@   at after "tree.max = len(nodes)": assert [C01] forall a int, b int :: {nodes[a], nodes[b]} 0 <= a && a < b && b < len(nodes) ==> cs[a] < cs[b] && nodes[a] != nodes[b] && rank(compare, nodes[a].X) <= rank(compare, nodes[b].X)
 //@   at after "tree.max = len(nodes)": assert [C01] forall a int, b int :: {nodes[a], nodes[b]} 0 <= a && b == a + 1 && b < len(nodes) ==> rank(compare, nodes[a].X) < rank(compare, nodes[b].X)
 //@   at after "tree.max = len(nodes)": assert [C01] forall a int, b int :: {nodes[a], nodes[b]} 0 <= a && a < b && b < len(nodes) ==> rank(compare, nodes[a].X) < rank(compare, nodes[b].X)
